@@ -44,13 +44,23 @@ type Workload struct {
 	SerialiseUpdateDelete bool `json:"serialise_update_delete,omitempty"`
 }
 
-var stressAlphabet = []string{"a", "b"}
+// Three subtrees below the root, two letters further down: paths overlap
+// heavily, and a history still splits into three projections when the
+// whole-history check is too expensive.
+var (
+	stressTop      = []string{"a", "b", "c"}
+	stressAlphabet = []string{"a", "b"}
+)
 
 func randPath(r *rand.Rand, min, max int) []string {
 	n := min + r.Intn(max-min+1)
 	p := make([]string, n)
 	for i := range p {
-		p[i] = stressAlphabet[r.Intn(len(stressAlphabet))]
+		if i == 0 {
+			p[i] = stressTop[r.Intn(len(stressTop))]
+		} else {
+			p[i] = stressAlphabet[r.Intn(len(stressAlphabet))]
+		}
 	}
 	return p
 }
@@ -70,9 +80,12 @@ func randPattern(r *rand.Rand) []string {
 	}
 	p := make([]string, n)
 	for i := range p {
-		if r.Intn(4) == 0 {
+		switch {
+		case r.Intn(4) == 0:
 			p[i] = "*"
-		} else {
+		case i == 0:
+			p[i] = stressTop[r.Intn(len(stressTop))]
+		default:
 			p[i] = stressAlphabet[r.Intn(len(stressAlphabet))]
 		}
 	}
@@ -125,11 +138,7 @@ func genWorkload(r *rand.Rand, index int, budget int) *Workload {
 					prog = append(prog, SOp{Kind: "query", Path: randPattern(r)})
 				}
 			case x < delW+hupdW+queryW+12:
-				min := 1
-				if r.Intn(25) == 0 {
-					min = 0
-				}
-				prog = append(prog, SOp{Kind: "glv", Path: randPath(r, min, maxDepth)})
+				prog = append(prog, SOp{Kind: "glv", Path: randPath(r, 1, maxDepth)})
 			case x < delW+hupdW+queryW+22:
 				s := r.Intn(2)
 				prog = append(prog, SOp{Kind: "getleaf", Path: randPath(r, 1, maxDepth), Slot: s})
@@ -139,11 +148,7 @@ func genWorkload(r *rand.Rand, index int, budget int) *Workload {
 			case x < delW+hupdW+queryW+28:
 				prog = append(prog, SOp{Kind: "hval", Slot: r.Intn(2)})
 			default:
-				min := 1
-				if r.Intn(40) == 0 {
-					min = 0
-				}
-				p := randPath(r, min, maxDepth)
+				p := randPath(r, 1, maxDepth)
 				prog = append(prog, SOp{Kind: "add", Path: p, Val: val})
 				// reading back what was just written keeps the order of overlapping writes observable
 				if r.Intn(2) == 0 && len(prog) < per {
